@@ -58,7 +58,7 @@ theorem truthy_false : ∀ e, truthy e = false → ev ρ e = 0
   | .var _, h => by simp [truthy] at h
   | .rlit _, h => by simp [truthy] at h
   | .blit _, h => by simp [truthy] at h
-  | .quot _ _ _, h => by simp [truthy] at h
+  | .quot _ _ _, _ => by rw [ev] <;> (intros; simp_all)
   | .pow _ _ _, h => by simp [truthy] at h
   | .cmp _ _ _, h => by simp [truthy] at h
   | .lnot _, h => by simp [truthy] at h
